@@ -10,6 +10,7 @@ mod rng;
 
 use bio_seq::codec::{degenerate, masked, text};
 use bio_seq::prelude::*;
+use bitvec::prelude::{BitSlice, BitVec, Lsb0};
 use core::marker::PhantomData;
 use std::hash::{Hash, Hasher};
 
@@ -111,6 +112,28 @@ fn histories<C: Codec>(o: &mut Out, r: &mut rng::Rng, lens: &[usize]) {
         if let Some(x) = Seq::<C>::from_raw(n, base.into_raw()) {
             o.seq("from_raw", &x);
         }
+        // owned sequences whose bit vector does NOT start at bit 0 of its first word: the public conversions from an
+        // unaligned bit slice / bit vector, and the owned set operations with such a left operand
+        if n >= 3 {
+            let w = C::BITS as usize;
+            let bits = BitSlice::<usize, Lsb0>::from_slice(base.into_raw());
+            let a = 1 + r.below(n - 1);
+            let b = a + r.below(n - a + 1);
+            let u: Seq<C> = Seq::from(&bits[a * w..b * w]);
+            o.seq("from(&unaligned bit slice)", &u);
+            let bv: BitVec<usize, Lsb0> = bits[a * w..b * w].to_bitvec();
+            let v: Seq<C> = Seq::from(bv);
+            o.seq("from(bit vector copied from an unaligned slice)", &v);
+            let u2: Seq<C> = Seq::from(&bits[a * w..b * w]);
+            let same = u2.clone();
+            o.seq("unaligned.bit_and(itself)", &u2.bit_and(same));
+            let u3: Seq<C> = Seq::from(&bits[a * w..b * w]);
+            let same = u3.clone();
+            o.seq("unaligned.bit_or(itself)", &u3.bit_or(same));
+            let mut e = Seq::<C>::from(&bits[a * w..b * w]);
+            e.push(C::items().next().unwrap());
+            o.seq("unaligned, then pushed", &e);
+        }
     }
 }
 
@@ -177,6 +200,10 @@ fn replay(hname: &str, hex: &str) -> bool {
         "kmer_bincode_dna_k32_u64" => kmer_case::<Dna, 32, u64>(&mut o, v as u64),
         "kmer_bincode_dna_k64_u128" => kmer_case::<Dna, 64, u128>(&mut o, v),
         "kmer_bincode_iupac_k32_u128" => kmer_case::<Iupac, 32, u128>(&mut o, v),
+        "kmer_bincode_text_k8" => kmer_case::<text::Dna, 8, usize>(&mut o, v as usize),
+        "kmer_bincode_masked_iupac_k12" => kmer_case::<masked::Iupac, 12, usize>(&mut o, v as usize),
+        "kmer_bincode_dna_k5_u64" => kmer_case::<Dna, 5, u64>(&mut o, v as u64),
+        "kmer_bincode_dna_k33_u128" => kmer_case::<Dna, 33, u128>(&mut o, v),
         _ => { println!("{{\"error\":\"unknown harness\"}}"); return false; }
     }
     let f: Vec<String> = o.fails.iter().map(|x| format!("{:?}", x)).collect();
